@@ -7,7 +7,7 @@
 EXTENDS D42Substitute
 
 PlainScalars == { VNone, VBool(TRUE), VBool(FALSE), VInt(0), VInt(1), VInt(-5), VInt(INT_MAX),
-                  VFloat(0), VFloat(25), VFloat(100), VStr(<<>>), VStr(<<97, 98>>), VBytes(<<97>>), VBytes(<<>>),
+                  VFloat(0), VFloat(25), VFloat(100), VStr(<<>>), VStr(<<97, 98>>), VBytes(<<97>>), VBytes(<<97, 98>>), VBytes(<<>>),
                   VUuid(4, 0), VDatetime(0), VDate(0) }
 ScalarsSmall == { VNone, VBool(TRUE), VInt(1), VFloat(100), VStr(<<97, 98>>) }
 
@@ -21,7 +21,11 @@ DictsOf(E) == {VDict(<<>>)} \cup {VDict(<<KV(KStrA, a)>>) : a \in E}
               \* keys whose text could mean something to a DSL or a formatter: "a?", "{}", "..."
               \cup {VDict(<<KV(VStr(<<97, 63>>), a), KV(VStr(<<123, 125>>), a), KV(VStr(<<46, 46, 46>>), a)>>) : a \in E}
 
+\* longer than any default the generator has for lists (16) and strings (32)
+LongList == VList([j \in 1..20 |-> VInt(j)])
+LongStr == VStr([j \in 1..40 |-> 97 + (j % 3)])
 Values1 == ListsOf(PlainScalars) \cup DictsOf(ScalarsSmall)
+           \cup {LongList, LongStr, VList(<<LongList>>), VDict(<<KV(KStrA, LongList)>>), VDict(<<KV(KStrA, LongStr)>>)}
 Rep1V == { VList(<<VInt(1), VStr(<<97, 98>>)>>), VList(<<>>), VDict(<<KV(KStrA, VInt(1))>>),
            VDict(<<KV(KStrA, VBool(TRUE)), KV(KStrB, VNone)>>) }
 Values2 == ListsOf(Rep1V \cup {VInt(1)}) \cup DictsOf(Rep1V)
